@@ -65,6 +65,48 @@ func genEarlyStopProgram(r *rand.Rand) []bt.Op {
 	return prog
 }
 
+// genBigScanProgram: a table of several hundred rows (more than any engine-internal batch or block is likely to hold)
+// scanned with filters that fail on exactly one row somewhere in the middle, with row limits that stop the scan early,
+// and after a prefix drop: the scan must end where the first engine ends it, whatever the engine buffers.
+func genBigScanProgram(r *rand.Rand) []bt.Op {
+	g := gen{r}
+	prog := []bt.Op{createOp(btTable)}
+	n := 300 + g.pick(500)
+	key := func(i int) j.B { return j.S(fmt.Sprintf("k%04d", i)) }
+	for lo := 0; lo < n; lo += 150 {
+		op := bt.Op{Ev: "MutateRows", T: btTable, Now: 5000}
+		for i := lo; i < n && i < lo+150; i++ {
+			op.Entries = append(op.Entries, bt.Entry{K: key(i), Muts: []bt.Mut{{M: "set", F: genFams[0], Q: j.S("q"), Ts: 1000, V: j.S("v")}}})
+		}
+		prog = append(prog, op)
+	}
+	failAt := func(i int) *bt.Filter {
+		bad := []bt.Filter{{K: "pass", B: false}, {K: "rowlimit", N: -1}, {K: "block", B: false}}[g.pick(3)]
+		ok := bt.Filter{K: "pass", B: true}
+		lit := litSeq(key(i))
+		p := bt.Filter{K: "keyre", Re: &lit}
+		return &bt.Filter{K: "cond", P: &p, Tb: &bad, Fb: &ok}
+	}
+	for k := 0; k < 3; k++ {
+		at := g.pick(n)
+		if k == 0 {
+			at = g.pick(n / 3) // well before the end: everything an engine fetched ahead must be discarded
+		}
+		op := bt.Op{Ev: "ReadRows", T: btTable, HasFilter: true, Filter: failAt(at)}
+		if g.chance(0.4) {
+			op.Limit = at + 1 + g.pick(n-at) // the failing row lies within the limit
+		}
+		if g.chance(0.3) {
+			op.Rs = bt.RowSet{Ranges: []bt.Range{{Sk: "closed", S: key(g.pick(at + 1)), Ek: "none"}}}
+		}
+		prog = append(prog, op)
+	}
+	prog = append(prog, bt.Op{Ev: "ReadRows", T: btTable, Limit: 200 + g.pick(200)})
+	prog = append(prog, bt.Op{Ev: "DropRowRange", T: btTable, HasPrefix: true, Prefix: j.S(fmt.Sprintf("k0%d", g.pick(3)))})
+	prog = append(prog, bt.Op{Ev: "ReadRows", T: btTable, HasFilter: true, Filter: failAt(g.pick(n))})
+	return prog
+}
+
 // C17 Bigtable: the choice of storage engine is unobservable to clients.
 func checkC17(c *Ctx) {
 	c.rule = "cases = sequential programs (mutation, read-modify-write, check-and-mutate, admin, GC, filtered-read and early-stopping-scan generators, seeded) run in lock-step on the btree, leveldb-mem and leveldb-disk engines; TLC (BtEquiv) requires the three recorded traces to agree event by event on every reply and read-back, and (BtTrace) each to be a behaviour of BtData; distinct = distinct program text; non-trivial = at least two requests"
@@ -84,6 +126,9 @@ func checkC17(c *Ctx) {
 		for i := 0; i < per; i++ {
 			progs = append(progs, g(r))
 		}
+	}
+	for i := 0; i < 2+per/100; i++ { // after the others, so that their programs do not depend on this generator
+		progs = append(progs, genBigScanProgram(r))
 	}
 	for _, p := range progs {
 		c.AddEval(1)
